@@ -303,7 +303,7 @@ package packet
 //@   let L = int(int32(leb32_val(Sinrow(st), p0, k)))
 //@   ensures err == nil ==> L >= 0 && n == k + L && Spos(st) == p0 + n && len(*str) == L      [@count @consume]
 //@   ensures err == nil ==> all(j, 0, L, (*str)[j] == Sin(st, p0 + k + j))         [@value @filled]
-//@   ensures !Sfail(st) && (k > 5 || L < 0) ==> err != nil                          [@value]
+//@   ensures !Sfail(st) && (k > 5 || L < 0) ==> err != nil                          [@value @reject]
 //@   ensures Sfail(st) ==> err != nil                                                [@errprop]
 //@   ensures !Sfail(st) && k <= 5 && L >= 0 ==> err == nil                          [@errprop]
 //@   modifies *str, stream(r)                                                        [@frame]
@@ -328,7 +328,7 @@ package packet
 //@   let L = int(int32(leb32_val(Sinrow(st), p0, k)))
 //@   ensures err == nil ==> L >= 0 && n == k + L && Spos(st) == p0 + n && len(*b) == L        [@count @consume]
 //@   ensures err == nil ==> all(j, 0, L, (*b)[j] == Sin(st, p0 + k + j))           [@value @filled]
-//@   ensures !Sfail(st) && (k > 5 || L < 0) ==> err != nil                          [@value]
+//@   ensures !Sfail(st) && (k > 5 || L < 0) ==> err != nil                          [@value @reject]
 //@   ensures Sfail(st) ==> err != nil                                                [@errprop]
 //@   ensures !Sfail(st) && k <= 5 && L >= 0 ==> err == nil                          [@errprop]
 //@   modifies *b, (*b)[0:cap(*b)], stream(r)                                         [@frame]
@@ -449,6 +449,6 @@ package packet
 //@   loop 0: invariant all(j, 0, i, uint64((*b)[j]) == be64(Sinrow(st), p0 + k + 8*j))
 //@   ensures err == nil ==> L >= 0 && len(*b) == L && n == k + 8*L && Spos(st) == p0 + n      [@count @consume]
 //@   ensures err == nil ==> all(j, 0, L, uint64((*b)[j]) == be64(Sinrow(st), p0 + k + 8*j))   [@value @filled]
-//@   ensures !Sfail(st) && (k > 5 || L < 0) ==> err != nil                          [@value]
+//@   ensures !Sfail(st) && (k > 5 || L < 0) ==> err != nil                          [@value @reject]
 //@   ensures Sfail(st) ==> err != nil                                                [@errprop]
 //@   modifies *b, (*b)[0:cap(*b)], stream(r)                                         [@frame]
